@@ -4,6 +4,8 @@ For each /verif/seeded/<id>/patch.diff a scratch worktree of /repo and a scratch
 /var/tmp/sm, the patch is applied to the worktree, all checks are run there with VERIF_REPO pointing at it, and both
 are removed again.  Nothing is applied to /repo itself.  Result: /verif/seeded/matrix.json.
 
+The machinery is copied once into a frozen snapshot first, so /verif can be edited while the matrix runs.
+
 usage: seed_matrix.py [--jobs N] [--only ID,ID] [--props C01,C02]"""
 import argparse
 import json
@@ -17,6 +19,7 @@ from concurrent.futures import ThreadPoolExecutor
 VERIF = os.path.dirname(os.path.dirname(os.path.abspath(__file__)))
 SEEDED = os.path.join(VERIF, "seeded")
 ROOT = "/var/tmp/sm"
+FROZEN = "/var/tmp/sm_frozen"
 PROPS = [f"C{i:02d}" for i in range(1, 20)]
 
 
@@ -41,7 +44,7 @@ def one(sid, props):
         if rc != 0:
             out["error"] = "apply: " + o[-300:]
             return out
-        sh(f"rsync -a --exclude .git --exclude replays --exclude seeded {VERIF}/ {vf}/")
+        sh(f"rsync -a {FROZEN}/ {vf}/")
         os.makedirs(os.path.join(vf, "replays"), exist_ok=True)
         env = dict(os.environ, VERIF_REPO=wt)
         for p in props:
@@ -73,6 +76,8 @@ def main():
         ids = [i for i in ids if i in a.only.split(",")]
     props = a.props.split(",") if a.props else PROPS
     os.makedirs(ROOT, exist_ok=True)
+    shutil.rmtree(FROZEN, ignore_errors=True)
+    sh(f"rsync -a --exclude .git --exclude replays --exclude seeded {VERIF}/ {FROZEN}/")
     with ThreadPoolExecutor(max_workers=a.jobs) as ex:
         res = list(ex.map(lambda s: one(s, props), ids))
     path = os.path.join(SEEDED, "matrix.json")
@@ -84,11 +89,12 @@ def main():
             old[r["id"]]["checks"].update(r["checks"])
         else:
             old[r["id"]] = r
-    json.dump({"repo_head": sh("git -C /repo rev-parse --short HEAD")[1].strip(), "results": [old[k] for k in sorted(old)]}, open(path, "w"), indent=1)
+    json.dump({"verif_head": sh(f"git -C {VERIF} rev-parse --short HEAD")[1].strip(), "repo_head": sh("git -C /repo rev-parse --short HEAD")[1].strip(), "results": [old[k] for k in sorted(old)]}, open(path, "w"), indent=1)
     for r in res:
         caught = [p for p, c in r["checks"].items() if c["exit"] != 0]
         print(r["id"], "caught by", caught, r.get("error", ""))
     shutil.rmtree(ROOT, ignore_errors=True)
+    shutil.rmtree(FROZEN, ignore_errors=True)
 
 
 if __name__ == "__main__":
